@@ -142,6 +142,30 @@ def judge_literals(ctx, rng, kt, universe):
                               {'code': [{'prim': 'PUSH', 'args': [T.to_micheline(t), lit]}], 'expect': 'reject'})
 
 
+def judge_python_objects(ctx, kt, universe):
+    """Maps and sets built from Python objects (dict / list in any order) are sorted by the Michelson order like any other."""
+    from rv.hooks import extract as X
+    srt = O.sort_unique(kt, universe)
+    if len(srt) < 2:
+        return
+    for coll in ('map', 'set'):
+        t = T.map_(kt, T.NAT) if coll == 'map' else T.set_(kt)
+        lit = [{'prim': 'Elt', 'args': [P.render(x, kt, 'readable'), {'int': str(j)}]} for j, x in enumerate(srt)] if coll == 'map' else [P.render(x, kt, 'readable') for x in srt]
+        case = {'code': [{'prim': 'PUSH', 'args': [T.to_micheline(t), lit]}], 'via': 'from_python_object'}
+        try:
+            cls = D.mk_type(t)
+            py = cls.from_micheline_value(lit).to_python_object()
+            rev = dict(reversed(list(py.items()))) if coll == 'map' else list(reversed(py))
+            ctx.count('collections_from_python_objects')
+            ctx.case(('py', T.show(t), repr(srt)), nontrivial=True)
+            got = X.value_of(cls.from_python_object(rev))
+            bad = unsorted_in(got, t)
+            if bad or len(got) != len(srt):
+                ctx.violation('C14|unsorted-or-duplicate-after|from_python_object|%s(%s)' % (coll, kt[0]), 'keys %r' % ([g[0] if coll == 'map' else g for g in got],), case)
+        except Exception as e:
+            ctx.violation('C14|from_python_object-raises|%s(%s)|%s' % (coll, kt[0], type(e).__name__), repr(e)[:200], case)
+
+
 def key_universes(rng, n):
     out = []
     shapes = [T.NAT, T.STRING, T.pair(T.NAT, T.STRING), T.pair(T.INT, T.pair(T.BOOL, T.BYTES)), T.or_(T.NAT, T.STRING), T.option(T.INT),
@@ -179,6 +203,7 @@ def run(ctx):
             ctx.samples.append({'key_type': T.show(kt), 'operations': ops, 'final_stack': repr(out.model.stack)[:300]})
     for kt, uni in unis[:ctx.pick(20, 200)]:
         judge_literals(ctx, rng, kt, uni)
+        judge_python_objects(ctx, kt, uni)
     ctx.require('agree', 200)
     ctx.require('invariant_evaluations', 1000)
     ctx.require('bad_literals', 20)
@@ -187,6 +212,11 @@ def run(ctx):
 
 
 def replay(ctx, case):
+    if case.get('via') == 'from_python_object':
+        push = case['code'][0]['args']
+        t = T.from_micheline(push[0])
+        keys = [P.parse(x['args'][0] if t[0] == 'map' else x, t[1]) for x in push[1]]
+        return judge_python_objects(ctx, t[1], keys)
     if case.get('expect') == 'reject':
         it = D.new_interpreter()
         if it.execute(case['code']).error is None:
